@@ -44,9 +44,11 @@ Section WithField.
     let x := dn (arg 1 a) in
     let y := dn (arg 2 a) in
     let z := dn (arg 3 a) in
-    let sx := pairs p (arg 1 a) in
-    let sy := pairs p (arg 2 a) in
-    let sz := pairs p (arg 3 a) in
+    (* thunks: extraction is strict, and [pairs] must only run on sparse arguments
+       (its degrees become unary naturals) *)
+    let sx_ (_ : unit) := pairs p (arg 1 a) in
+    let sy_ (_ : unit) := pairs p (arg 2 a) in
+    let sz_ (_ : unit) := pairs p (arg 3 a) in
     let s0 (l : list Z) := hd 0 l in
     (* a domain argument [n; h; g] *)
     let dom (l : list Z) := (Z.to_nat (nth 0 l 0), nth 1 l 1 mod p, nth 2 l 1 mod p) in
@@ -63,33 +65,33 @@ Section WithField.
     | 10 => out (dres (d_naive_mul F x y))
     | 11 => out (dres (d_mul F x y))
     | 12 => out (dres (qr <- divide F (DP x) (DP y) ;; ROk (fst qr)))
-    | 20 => out (sres (s_from_vec F sx))
-    | 21 => out (v <- s_evaluate F sx (s0 y) ;; ROk [[v]])
-    | 22 => out (sres (s_add F sx sy))
-    | 23 => out (sres (s_add F sx sy))
-    | 24 => out (sres (s_add_assign_scaled F sx (s0 y) sz))
-    | 25 => out (sres (ROk (s_neg F sx)))
-    | 26 => out (sres (s_sub_assign F sx sy))
-    | 27 => out (sres (ROk (s_scale F sx (s0 y))))
-    | 28 => out (sres (s_mul F sx sy))
-    | 29 => out (dres (s_to_dense F sx))
+    | 20 => out (sres (s_from_vec F (sx_ tt)))
+    | 21 => out (v <- s_evaluate F (sx_ tt) (s0 y) ;; ROk [[v]])
+    | 22 => out (sres (s_add F (sx_ tt) (sy_ tt)))
+    | 23 => out (sres (s_add F (sx_ tt) (sy_ tt)))
+    | 24 => out (sres (s_add_assign_scaled F (sx_ tt) (s0 y) (sz_ tt)))
+    | 25 => out (sres (ROk (s_neg F (sx_ tt))))
+    | 26 => out (sres (s_sub_assign F (sx_ tt) (sy_ tt)))
+    | 27 => out (sres (ROk (s_scale F (sx_ tt) (s0 y))))
+    | 28 => out (sres (s_mul F (sx_ tt) (sy_ tt)))
+    | 29 => out (dres (s_to_dense F (sx_ tt)))
     | 30 => out (sres (d_to_sparse F x))
-    | 31 => out (sres (s_add F sx sy))
-    | 40 => out (dres (d_add_sparse F x sy))
-    | 41 => out (dres (d_add_assign_sparse F x sy))
-    | 42 => out (dres (d_sub_sparse F x sy))
-    | 43 => out (dres (d_sub_assign_sparse F x sy))
+    | 31 => out (sres (s_add F (sx_ tt) (sy_ tt)))
+    | 40 => out (dres (d_add_sparse F x (sy_ tt)))
+    | 41 => out (dres (d_add_assign_sparse F x (sy_ tt)))
+    | 42 => out (dres (d_sub_sparse F x (sy_ tt)))
+    | 43 => out (dres (d_sub_assign_sparse F x (sy_ tt)))
     | 50 => out (qrres (divide F (DP x) (DP y)))
-    | 51 => out (qrres (divide F (DP x) (SP sy)))
-    | 52 => out (qrres (divide F (SP sx) (DP y)))
-    | 53 => out (qrres (divide F (SP sx) (SP sy)))
+    | 51 => out (qrres (divide F (DP x) (SP (sy_ tt))))
+    | 52 => out (qrres (divide F (SP (sx_ tt)) (DP y)))
+    | 53 => out (qrres (divide F (SP (sx_ tt)) (SP (sy_ tt))))
     | 60 => let '(n, h, _) := dom (arg 2 a) in
             out (dres (mul_by_vanishing F x n (pown F h n)))
     | 61 => let '(n, h, _) := dom (arg 2 a) in
             out (qrres (divide_by_vanishing F x n (pown F h n)))
     | 70 | 71 => let '(n, h, g) := dom (arg 2 a) in ok [d_eval_over_domain F x n h g]
     | 72 => let '(n, h, g) := dom (arg 2 a) in
-            out (v <- s_eval_over_domain F sx n h g ;; ROk [v])
+            out (v <- s_eval_over_domain F (sx_ tt) n h g ;; ROk [v])
     | 73 | 74 => let '(n, h, g) := dom (arg 2 a) in out (dres (interpolate F x n h g))
     | 75 => let '(n, h, g) := dom (arg 2 a) in
             out (dres (interpolate F (d_eval_over_domain F x n h g) n h g))
